@@ -426,7 +426,7 @@ def check_ik(name, args, r_port, r_ref, ctx, mr, ref, case):
 def plan(tier, seed):
     if tier == "quick":
         return [{"per_fn": 40, "per_fn_heavy": 8, "timeout_s": 1800} for _ in range(16)]
-    return [{"per_fn": 260, "per_fn_heavy": 40, "timeout_s": 10800} for _ in range(16)]
+    return [{"per_fn": 1500, "per_fn_heavy": 200, "timeout_s": 14400} for _ in range(16)]
 
 
 def _load():
